@@ -24,7 +24,7 @@ from harness.translators import evalsites
 
 MODULE = "CddVerif.Properties.C17"
 THEOREMS = [
-    "C17.all_sites_safe", "C17.registry_all_present", "C17.doc_eval_unique", "C17.no_unsafe_sites",
+    "C17.all_sites_safe", "C17.registry_all_present", "C17.doc_eval_unique", "C17.no_unsafe_sites", "C17.findings_registered",
     "C17.eval_arg_safe", "C17.safeC_iff", "C17.safe_excludes", "C17.eval_arg_excludes", "C17.no_call_syntax", "C17.no_dunder",
     "C17.constants_lossless", "C17.tables_match", "C17.word_chars_match", "C17.word_chars_exact",
     "Adhoc.safe_of_word", "Adhoc.safe_of_sep",
@@ -122,7 +122,8 @@ def _hook(ev, args):
             elif isinstance(flags, int):
                 w = bool(flags & (os.O_WRONLY | os.O_RDWR | os.O_CREAT | os.O_APPEND | os.O_TRUNC))
             if w:
-                S.events.append({"ev": "open-write", "path": os.fsdecode(path) if isinstance(path, (bytes, str)) else repr(path), "mode": mode if isinstance(mode, str) else flags})
+                S.events.append({"ev": "open-write", "path": os.path.abspath(os.fsdecode(path)) if isinstance(path, (bytes, str)) else repr(path),
+                                 "mode": mode if isinstance(mode, str) else flags})
         elif ev.startswith(_EVENT_PREFIXES) and ev != "marshal.loads":
             S.events.append({"ev": ev, "args": repr(args)[:300]})
     except Exception as e:  # noqa
@@ -641,7 +642,7 @@ def cli_cases():
                     "argv": ["sync", "--truth", "class", "--class", P("class.py"), "--class-name", "C", "--function", P("function.py"), "--function-name", "f",
                              "--argparse-function", P("argparse_function.py"), "--argparse-function-name", "set_cli_args"],
                     "outputs": [F("function.py"), F("argparse_function.py")]})
-        out.append({"fn": "cli", "command": "gen_routes", "label": "gen_routes:model-path=" + st, "files": {F("models.py"): _hostile("models", _SQL)}, "hostile": ["models", "routes", "sub"],
+        out.append({"fn": "cli", "command": "gen_routes", "label": "gen_routes:model-path=" + st, "files": {F("models.py"): _hostile("models", _SQL)}, "hostile": ["models", "sub"],
                     "argv": ["gen_routes", "--crud", "CRD", "--app-name", "app", "--model-path", P("models.py"), "--model-name", "Tbl", "--routes-path", P("routes.py")],
                     "outputs": [F("routes.py")]})
     # gen --phase 1 / 2 rewrite the named file in place and resolve the symbols it imports
@@ -881,12 +882,16 @@ def run(chk: core.Check) -> int:
     chk.trusted_base += [
         "translator harness/translators/evalsites.py: enumerates references (after import-alias resolution, one hop of `name = …` aliases, getattr(import_module(c), c')) to "
         "eval/exec/compile/__import__/importlib/literal_eval/pickle-likes/yaml/subprocess/os process+fs calls/network modules/shutil/tempfile/open with write or non-constant mode "
-        "in non-test code (%d sites this run); names reached through containers, `globals()[...]`, string-built attribute access or C extensions are not followed; "
+        "in non-test code, plus every call of (or reference to) a project function that hands one of its parameters to a dynamic import / find_spec / eval / exec / compile / unsafe site "
+        "or to another such wrapper (fixpoint over all non-test modules; a call of another function on the way is taken as a sanitising barrier) (%d sites this run); names reached through containers, `globals()[...]`, string-built attribute access or C extensions are not followed; "
         "the reviewed classes in Properties/C17.lean (`registry`) are a human reading of each site" % len(sites),
         "model lean/CddVerif/Model/Adhoc.lean (safe-by-type port of parse_adhoc_doc_for_typ) tied to the real function by exact comparison of results / exception classes, "
         "its tables and word_chars tied to the source text by C17.tables_match / C17.word_chars_match (regenerated every run)",
         "eval_arg_safe bounds the *alphabet* of the evaluated string; that an expression over this alphabet (names, attribute access, subscription, `/`, `|`, string literals) "
         "has no harmful side effect on the objects reachable from docstring_parsers' globals is not proved — it is watched by the audit-hook oracle on every generated case",
+        "CLI oracle: every file-taking option of gen / doctrans / sync / sync_properties / gen_routes / gen --phase 1,2 is run as `python -m cdd …` semantics (runpy of cdd.__main__, cwd first on "
+        "sys.path, cwd = the directory of the marker-writing files) with the file spelled bare, ./name, sub/name and absolute; black's own import-time probe of its cache directory "
+        "(BLACK_CACHE_DIR, private per case) is filtered; `openapi` is not run this way (its --model-paths is iterated character by character and never reaches a parser)",
         "runtime oracle: CPython audit events (PEP 578) as raised by this interpreter; effects that raise no audit event (pure C extensions) are only seen through sentinel files; "
         "non-BMP characters are not generated (JSON transport to the Lean driver)",
     ]
@@ -1078,7 +1083,7 @@ def run(chk: core.Check) -> int:
     return chk.finish("adhoc: every token, sampled pairs/triples and random sequences over a %d-token adversarial alphabet (trigger words from the live tables, quotes, stray apostrophes, "
                       "backticks, separators, brackets, call expressions, dunder chains, non-ASCII whitespace and look-alikes) + sentence grammar; non-trivial = a type string is returned "
                       "(it reaches eval). runtime: adversarial docstrings / modules / schemas / YAML through parsers, all emitters, doctrans, sync, sync_properties, gen-from-file, "
-                      "bottle / fastapi / openapi parsers in audit-hooked child processes; non-trivial = the real call got past parsing or reached the doc-derived eval" % len(toks))
+                      "bottle / fastapi / openapi parsers in audit-hooked child processes, and the CLI commands started from the directory of marker-writing files with every spelling of the file arguments; non-trivial = the real call got past parsing or reached the doc-derived eval" % len(toks))
 
 
 def replay(path: str) -> int:
